@@ -171,3 +171,39 @@ Proof.
   rewrite E1 in E1'. rewrite E2 in E2'. injection E1' as <- <-. injection E2' as <- <-.
   rewrite R1, R2. apply dot_Rgal_inv.
 Qed.
+
+(* there and back returns the same direction for EVERY input longitude (not only canonical
+   ones): the result is the direction's canonical representative *)
+Theorem gal_roundtrip_vec al de lo la : -90 < de < 90 ->
+  f_equatorial2galactic Rops (ang al) (ang de) = VTuple [ang lo; ang la] ->
+  -90 < la < 90 ->
+  exists x y, f_galactic2equatorial Rops (ang lo) (ang la) = VTuple [ang x; ang y]
+    /\ uvec (d2r x) (d2r y) = uvec (d2r al) (d2r de) /\ y = de /\ 0 <= x < 360.
+Proof.
+  intros H0 H1 H2.
+  destruct (eq2gal_rotation al de H0) as (o1' & o2' & E1 & R1 & _ & _).
+  rewrite H1 in E1. injection E1 as <- <-.
+  destruct (gal2eq_rotation lo la H2) as (x & y & E2 & R2 & Hx & Hy).
+  exists x, y. rewrite R1, Rgal_inv_Rgal in R2. repeat split; try assumption; try lra.
+  apply d2r_inj. apply (uvec_inj_lat (d2r x) (d2r y) (d2r al) (d2r de)); [| | assumption].
+  - destruct Hy as [A B]. apply d2r_le in A, B. rewrite d2r_m90 in A. rewrite d2r_90 in B. lra.
+  - destruct H0 as [A B]. apply d2r_lt in A, B. rewrite d2r_m90 in A. rewrite d2r_90 in B. lra.
+Qed.
+
+(* there and back returns the same direction for EVERY input longitude (not only canonical
+   ones): the result is the direction's canonical representative *)
+Theorem equ_g_roundtrip_vec lo la al de : -90 < la < 90 ->
+  f_galactic2equatorial Rops (ang lo) (ang la) = VTuple [ang al; ang de] ->
+  -90 < de < 90 ->
+  exists x y, f_equatorial2galactic Rops (ang al) (ang de) = VTuple [ang x; ang y]
+    /\ uvec (d2r x) (d2r y) = uvec (d2r lo) (d2r la) /\ y = la /\ 0 <= x < 360.
+Proof.
+  intros H0 H1 H2.
+  destruct (gal2eq_rotation lo la H0) as (o1' & o2' & E1 & R1 & _ & _).
+  rewrite H1 in E1. injection E1 as <- <-.
+  destruct (eq2gal_rotation al de H2) as (x & y & E2 & R2 & Hx & Hy).
+  exists x, y. rewrite R1, Rgal_Rgal_inv in R2. repeat split; try assumption; try lra.
+  apply d2r_inj. apply (uvec_inj_lat (d2r x) (d2r y) (d2r lo) (d2r la)); [| | assumption].
+  - destruct Hy as [A B]. apply d2r_le in A, B. rewrite d2r_m90 in A. rewrite d2r_90 in B. lra.
+  - destruct H0 as [A B]. apply d2r_lt in A, B. rewrite d2r_m90 in A. rewrite d2r_90 in B. lra.
+Qed.
